@@ -95,6 +95,31 @@ def clamp_report(bench, p):
     return out
 
 
+def trace_spec_selftest(chk, t0):
+    """each C16 clause of Trace_Planning must fire when the field it talks about is corrupted in a recorded history"""
+    base = copy.deepcopy(t0)
+    base['name'] = 'selftest:base'
+    k = next(i for i, x in enumerate(base['ent']) if x['c16']['cur']['reason'] == '' and x['c16']['cur']['nm'])
+    cases = [('Independent', lambda t: t['ent'][k]['c16']['cur']['rx'].update(snr01=t['ent'][k]['c16']['cur']['rx']['snr01'] + 10)),
+             ('ModelAgrees', lambda t: t['ent'][k]['c16'].update(exp='NO_SPECTRUM')),
+             ('OnlySlotsDependOnHistory', lambda t: (t['ent'][0]['c16']['cur'].update(nm=[[123, 4]]),
+                                                     t['ent'][0]['c16']['solo'].update(nm=[[7, 4]]))),
+             ('NetworkFrozen', lambda t: t['netA'].__setitem__(0, 1))]
+    traces = [base]
+    for clause, f in cases:
+        t = copy.deepcopy(base)
+        t['name'] = f'selftest:{clause}'
+        f(t)
+        traces.append(t)
+    v = pu.judge(traces, chk, 'c16-selftest')
+    if v['selftest:base']:
+        return
+    silent = [c for c, _ in cases if c not in {x[1] for x in v[f'selftest:{c}']}]
+    if silent:
+        raise Machinery(f'Trace_Planning clauses that do not fire on a corrupted trace: {silent}')
+    chk.cov['trace_clauses_shown_to_fire'] = len(cases)
+
+
 # ------------------------------------------------------------------------------------------------------------- B2
 def b2(chk, bench, hists):
     p, solos = prepare_pool(bench, chk)
@@ -115,6 +140,8 @@ def b2(chk, bench, hists):
         c16 = {i: dict(exp=h['st'][i], solo=solo_core[c], unit=i + 1) for i, c in enumerate(order)}
         traces.append(pu.trace_of(run, c16=c16, j19=False))
         runs[name] = (run, h)
+    if traces and not chk.mutant and 'trace_clauses_shown_to_fire' not in chk.cov:
+        trace_spec_selftest(chk, next(t for t in traces if len(t['ent']) >= 2 and t['ent'][0]['c16']['cur']['nm']))
     verdicts = pu.judge(traces, chk, f'c16-b2-{bench}')
     for name, viol in verdicts.items():
         run, h = runs[name]
@@ -184,7 +211,8 @@ def b3_file(chk, bench, label, data, orders, solo_cache):
         run = pu.run_batch(bench, d, name, want_csv=False)
         chk.case(name, nontrivial=len(order) > 1)
         if run.exc:
-            chk.violation(f'B3|exception-in-planning|{label}|{oname.split("-")[0]}', dict(name=name, exception=run.exc, tb=run.tb))
+            chk.violation(f'B3|exception-in-planning|{label.split("-")[0]}|{run.exc.split(":")[0]}',
+                          dict(name=name, exception=run.exc, tb=run.tb, requests=d['path-request']))
             continue
         units = units_of(d, run)
         unit_of = {i: k + 1 for k, u in enumerate(units) for i in u}
@@ -196,14 +224,22 @@ def b3_file(chk, bench, label, data, orders, solo_cache):
                 solo_cache[key] = pu.run_batch(bench, restrict(d, u), f'{label}:solo:{"+".join(u)}', want_csv=False)
             srun = solo_cache[key]
             solo = None
-            if not srun.exc:
+            if srun.exc:
+                chk.violation(f'B3|exception-in-planning|{label.split("-")[0]}|{srun.exc.split(":")[0]}',
+                              dict(name=srun.name, exception=srun.exc, tb=srun.tb, requests=srun.data['path-request']))
+            else:
                 solo = next((pu.core_of(x) for x in srun.entries if set(x['e']['ids']) == set(ent['e']['ids'])), None)
             c16[k] = dict(exp='', solo=solo, unit=unit_of.get(ent['e']['ids'][0], 0))
         traces.append(pu.trace_of(run, c16=c16, j19=False))
         runs[name] = run
-    verdicts = pu.judge(traces, chk, f'c16-b3-{label}')
-    for name, viol in verdicts.items():
-        run = runs[name]
+    return [(t, runs[t['name']], data, label) for t in traces]
+
+
+def b3_judge(chk, jobs):
+    """one TLC pass over every recorded B3 batch"""
+    verdicts = pu.judge([j[0] for j in jobs], chk, 'c16-b3')
+    for t, run, data, label in jobs:
+        viol = verdicts[t['name']]
         if not viol:
             chk.traces += 1
         for step, clause in viol:
@@ -213,16 +249,15 @@ def b3_file(chk, bench, label, data, orders, solo_cache):
             what = 'batch' if ent is None else ('sync' if any(
                 set(ent['e']['ids']) & set(s['svec']['request-id-number']) for s in data.get('synchronization', [])) else
                 ('aggregated' if len(ent['e']['ids']) > 1 else 'single'))
-            chk.violation(f'B3|{clause}|{label}|{what}', dict(
-                trace=name, step=step, clause=clause, entry=ent,
+            chk.violation(f'B3|{clause}|{label.split("-")[0]}|{what}', dict(
+                trace=t['name'], step=step, clause=clause, entry=ent,
                 net_changed=[u for u, a, b in zip(run.net_uids, run.netB, run.netA) if a != b][:10]))
-    if traces and len(chk.samples) < 4:
-        t = traces[-1]
-        chk.sample(dict(kind='B3 shipped services, reordered, each entry against its unit run alone', name=t['name'],
+    for t, _, _, _ in jobs[-1:]:
+        chk.sample(dict(kind='B3 batch, reordered, each entry against its unit run alone', name=t['name'],
                         first_entries=[dict(id=x['e']['idstr'], reason=x['c16']['cur']['reason'], nm=x['c16']['cur']['nm'],
                                             solo_nm=x['c16']['solo']['nm'], snr01_udB=x['c16']['cur']['rx']['snr01'],
                                             solo_snr01_udB=x['c16']['solo']['rx']['snr01']) for x in t['ent'][:4]]))
-    return len(traces)
+    return len(jobs)
 
 
 def shipped(tier):
@@ -259,7 +294,7 @@ def run(chk):
         rng = random.Random(chk.seed)
         short = [h for h in hists if len(h['order']) <= 3]
         long_ = [h for h in hists if len(h['order']) > 3]
-        sel = short + rng.sample(long_, 40)
+        sel = short + rng.sample(long_, 25)
         n = b2(chk, 'meshV2', sel)
         chk.cov['b2_histories'] = {'meshV2': n}
     else:
@@ -269,7 +304,7 @@ def run(chk):
     rng = random.Random(chk.seed + 16)
     nshuf = 2 if chk.tier == 'quick' else 8
     cache = {}
-    nb3 = 0
+    jobs = []
     for bench, label, data in shipped(chk.tier):
         n = len(data['path-request'])
         orders = [('original', list(range(n)))]
@@ -279,9 +314,9 @@ def run(chk):
                 o = list(range(n))
                 rng.shuffle(o)
                 orders.append((f'shuffled-{k}', o))
-        nb3 += b3_file(chk, bench, label, data, orders, cache)
+        jobs += b3_file(chk, bench, label, data, orders, cache)
     # seeded random batches (every blocking reason, fixed / multi slots, aggregation), each in several orders
-    nrand = 3 if chk.tier == 'quick' else 40
+    nrand = 3 if chk.tier == 'quick' else 32
     for b in range(nrand):
         bench = 'meshV2+island' if b % 4 != 3 else 'testTopology'
         reqs = pu.loadable(bench, pu.random_batch(rng, bench, f'r{b}-', 10))
@@ -291,8 +326,8 @@ def run(chk):
             o = list(range(n))
             rng.shuffle(o)
             orders.append((f'shuffled-{k}', o))
-        nb3 += b3_file(chk, bench, f'seeded-{b}', {'path-request': reqs}, orders, cache)
-    chk.cov['b3_batches'] = nb3
+        jobs += b3_file(chk, bench, f'seeded-{b}', {'path-request': reqs}, orders, cache)
+    chk.cov['b3_batches'] = b3_judge(chk, jobs)
     chk.cov['tolerance_udB'] = 3
     chk.cov['measured_deviation_udB'] = 0
     chk.cov['rule'] = ('B2: one case per (bench, history) - non-trivial when the history has >= 2 requests; '
